@@ -472,6 +472,39 @@ func checkC11(w *World) {
 			})
 		}
 		w.check(P, "R11.2", "GetQName cuts the name at the colon", gq.Pos(), cut == "", "the prefix and the local part are separated by position (Split, Cut, Index); a character-set operation on the name: "+orNone(cut)+" (strings.TrimLeft(name, prefix+\":\") removes every leading character that occurs in the prefix, so `inv:number` becomes `umber`)")
+		// the name arrives as written (`p : x`, `$ v`): both parts lose their surrounding white space before they are
+		// used - the prefix before it is looked up, the local part before it is returned
+		trimmedKey, nLookup := true, 0
+		isTrim := func(v ssa.Value) bool {
+			found := false
+			backSlice(v, func(x ssa.Value) bool {
+				if c, ok := x.(*ssa.Call); ok {
+					if sc := staticCallee(c); sc != nil {
+						switch funcFullName(sc) {
+						case "strings.TrimSpace", "strings.Fields":
+							found = true
+						case "strings.Trim":
+							if cs, ok := constString(c.Call.Args[1]); ok && strings.Contains(cs, " ") && strings.Contains(cs, "\t") && strings.Contains(cs, "\r") && strings.Contains(cs, "\n") {
+								found = true
+							}
+						}
+					}
+				}
+				return !found
+			})
+			return found
+		}
+		allInstrs(gq, func(in ssa.Instruction) {
+			lk, ok := in.(*ssa.Lookup)
+			if !ok || lk.X != ssa.Value(gq.Params[1]) {
+				return
+			}
+			nLookup++
+			if !isTrim(lk.Index) {
+				trimmedKey = false
+			}
+		})
+		w.check(P, "R11.2", "GetQName trims the prefix before it is looked up", gq.Pos(), nLookup > 0 && trimmedKey, fmt.Sprintf("lookups in the namespace bindings: %d; each key has passed through strings.TrimSpace: %v (`p :x` and `p : x` are the QName p:x)", nLookup, trimmedKey))
 	} else {
 		w.undecided(P, "R11.2", "exec.GetQName", 0, "not found")
 	}
@@ -839,6 +872,48 @@ func (w *World) nameTestGuards(P string, f *Facts, r *Roles) {
 		}
 		if n == 0 {
 			w.undecided(P, "R11.3", "name test "+nt, h.Pos, "no filtering append found")
+		}
+	}
+	// the parts of a name are distinct parse nodes: a list of node pointers that is filled inside a loop takes the address
+	// of a variable that lives inside that loop; the address of one variable declared outside of it, appended on every
+	// iteration, makes all entries the same node (prefix and local name of `p:x` then read the same text)
+	seenFn := map[*ssa.Function]bool{}
+	for _, nt := range nts {
+		h := f.Handlers[nt]
+		if h == nil {
+			continue
+		}
+		for _, fn := range w.handlerClosureH(h) {
+			if seenFn[fn] {
+				continue
+			}
+			seenFn[fn] = true
+			loops := loopBlocks(fn)
+			allInstrs(fn, func(in ssa.Instruction) {
+				c, ok := in.(*ssa.Call)
+				if !ok || !loops[c.Block()] {
+					return
+				}
+				b, ok := c.Call.Value.(*ssa.Builtin)
+				if !ok || b.Name() != "append" || len(c.Call.Args) != 2 || !isBSRPtrSlice(c.Type()) {
+					return
+				}
+				sl, ok := c.Call.Args[1].(*ssa.Slice)
+				if !ok {
+					return
+				}
+				arr, ok := sl.X.(*ssa.Alloc)
+				if !ok {
+					return
+				}
+				for _, st := range storesInto(arr) {
+					al, isAl := st.Val.(*ssa.Alloc)
+					if !isAl {
+						continue
+					}
+					w.check(P, "R11.3", "parse nodes collected in "+fn.Name()+" are distinct", c.Pos(), loops[al.Block()], fmt.Sprintf("the variable whose address is appended in the loop is declared inside it: %v", loops[al.Block()]))
+				}
+			})
 		}
 	}
 	w.floor(P, "R11.3", 11)
